@@ -287,7 +287,14 @@ type Probe struct {
 	User     string // the username the server attributed it to
 	NotFound bool   // refused specifically because the user key is not in the live map
 	Err      string
+	// ReplyOK: after the request was accepted, the server's reply (server -> client direction,
+	// which uses the per-user material in the other role) was produced by the server-side
+	// implementation and accepted intact by the real client. ReplyErr says why not.
+	ReplyOK  bool
+	ReplyErr string
 }
+
+var probeReply = []byte("verif-c08-probe-reply")
 
 // ProbeTCP opens a new client connection with the given user key (StreamClient.DialStream) and
 // lets the server handle it (StreamServer.HandleStream).
@@ -310,7 +317,35 @@ func (r *Rig) ProbeTCP(key []byte) Probe {
 	if !req.Addr.Equals(probeTarget) || !bytes.Equal(req.Payload, probePayload) {
 		return Probe{Err: fmt.Sprintf("authenticated but request mangled: addr=%v payload=%q", req.Addr, req.Payload)}
 	}
-	return Probe{OK: true, User: req.Username}
+	pr := Probe{OK: true, User: req.Username}
+	// reply direction: the server writes, the client reads
+	func() {
+		defer func() {
+			if p := recover(); p != nil {
+				pr.ReplyErr = fmt.Sprintf("panic while the server wrote its reply: %v", p)
+			}
+		}()
+		sc, err := req.PendingConn.Proceed()
+		if err != nil {
+			pr.ReplyErr = "proceed: " + err.Error()
+			return
+		}
+		if _, err := sc.Write(probeReply); err != nil {
+			pr.ReplyErr = "server write: " + err.Error()
+			return
+		}
+		buf := make([]byte, len(probeReply))
+		if _, err := io.ReadFull(clientConn, buf); err != nil {
+			pr.ReplyErr = "client read: " + err.Error()
+			return
+		}
+		if !bytes.Equal(buf, probeReply) {
+			pr.ReplyErr = fmt.Sprintf("reply mangled: %q", buf)
+			return
+		}
+		pr.ReplyOK = true
+	}()
+	return pr
 }
 
 var probeServerAddr = conn.AddrFromIPPort(netip.MustParseAddrPort("127.0.0.1:9"))
@@ -355,7 +390,40 @@ func (r *Rig) ProbeUDP(key []byte) Probe {
 	if !addr.Equals(probeTarget) || !bytes.Equal(buf[s:s+l], probePayload) {
 		return Probe{Err: fmt.Sprintf("authenticated but packet mangled: addr=%v payload=%q", addr, buf[s:s+l])}
 	}
-	return Probe{OK: true, User: user}
+	pr := Probe{OK: true, User: user}
+	// reply direction, as service/udp_session.go does on the first packet from the target: the
+	// session's server packer is created from the unpacker, packs the reply, the real client unpacks
+	func() {
+		defer func() {
+			if p := recover(); p != nil {
+				pr.ReplyErr = fmt.Sprintf("panic while the server packed its reply: %v", p)
+			}
+		}()
+		packer, err := unp.NewPacker()
+		if err != nil {
+			pr.ReplyErr = "new packer: " + err.Error()
+			return
+		}
+		hr := packer.ServerPackerInfo().Headroom
+		rbuf := make([]byte, hr.Front+len(probeReply)+hr.Rear+64)
+		copy(rbuf[hr.Front:], probeReply)
+		rps, rpl, err := packer.PackInPlace(rbuf, probeTarget.IPPort(), hr.Front, len(probeReply), 1452)
+		if err != nil {
+			pr.ReplyErr = "server pack: " + err.Error()
+			return
+		}
+		src, s0, l0, err := sess.Unpacker.UnpackInPlace(rbuf, probeServerAddr.IPPort(), rps, rpl)
+		if err != nil {
+			pr.ReplyErr = "client unpack: " + err.Error()
+			return
+		}
+		if src != probeTarget.IPPort() || !bytes.Equal(rbuf[s0:s0+l0], probeReply) {
+			pr.ReplyErr = fmt.Sprintf("reply mangled: from %v payload %q", src, rbuf[s0:s0+l0])
+			return
+		}
+		pr.ReplyOK = true
+	}()
+	return pr
 }
 
 // ---- store file codec written from the README (independent of cred.LoadFromFile/saveToFile)
@@ -510,4 +578,69 @@ func Listed(isKnown func(property, sig string) bool, property, sig string) (stri
 		return sig, true
 	}
 	return sig, false
+}
+
+// Entry is one "username": "value" member of a hand-written store document; Value is the raw
+// string between the quotes (normally base64 of the key).
+type Entry struct {
+	Name  string
+	Value string
+}
+
+// EncodeOrdered writes a store document whose members appear exactly in the given order (an
+// operator's editor keeps the order of the lines; encoding/json would sort them).
+func EncodeOrdered(entries []Entry, indent bool) []byte {
+	var b bytes.Buffer
+	b.WriteByte('{')
+	for i, e := range entries {
+		if i > 0 {
+			b.WriteByte(',')
+		}
+		if indent {
+			b.WriteString("\n    ")
+		}
+		n, _ := json.Marshal(e.Name)
+		v, _ := json.Marshal(e.Value)
+		b.Write(n)
+		b.WriteByte(':')
+		if indent {
+			b.WriteByte(' ')
+		}
+		b.Write(v)
+	}
+	if indent && len(entries) > 0 {
+		b.WriteByte('\n')
+	}
+	b.WriteString("}\n")
+	return b.Bytes()
+}
+
+// SemanticallyBadStore builds a store document that is valid JSON but has ONE entry that a
+// multi-user server of the given key length must refuse: kind "bad-length" (a key of the other
+// cipher's length), "dup-key" (the key of an earlier good entry again), "bad-base64". good are
+// the good entries in file order; the bad entry (user badName) is inserted at index pos
+// (0 = first; len(good) = last). For "dup-key" with pos 0 the duplicate of the bad entry's key
+// follows later in the file.
+func SemanticallyBadStore(keyLen int, good []Entry, badName, kind string, pos int, indent bool) []byte {
+	bad := Entry{Name: badName}
+	switch kind {
+	case "bad-length":
+		bad.Value = base64.StdEncoding.EncodeToString(Key(48-keyLen, 9))
+	case "dup-key":
+		src := 0
+		if pos > 0 {
+			src = pos - 1
+		}
+		if len(good) > 0 {
+			bad.Value = good[src].Value
+		}
+	case "bad-base64":
+		bad.Value = base64.StdEncoding.EncodeToString(Key(keyLen, 9))
+		bad.Value = bad.Value[:len(bad.Value)-3] + "!*="
+	}
+	out := make([]Entry, 0, len(good)+1)
+	out = append(out, good[:pos]...)
+	out = append(out, bad)
+	out = append(out, good[pos:]...)
+	return EncodeOrdered(out, indent)
 }
